@@ -145,6 +145,8 @@ func runC15(c *Ctx) {
 	checkFloatDigits(c, "R15i")
 	c.Rule("R15j", ruleTextIntParserGuard, 1)
 	checkIntParserGuard(c, "R15j")
+	c.Rule("R15o", ruleTextValueWritten, 1)
+	checkValueWritten(c, "R15o")
 	c.Rule("R15m", ruleTextFoldConsistency, 3)
 	checkFoldConsistency(c, "R15m")
 	c.Rule("R15n", ruleTextTimePrecision, 1)
